@@ -46,6 +46,15 @@ Lemma tie_C03 :
   /\ filter (fun p => String.eqb (fst p) "Conn.recv") go_stmts_client = []
   /\ List.length (filter (String.eqb "send conn.in") flow_client_Conn_recv) = 1
   /\ existsb (fun x => String.eqb x "conn.dispatch" || String.eqb x "go conn.dispatch") flow_client_Conn_recv = false
+  (* conditions (a flow skeleton does not see a change that only alters a condition) *)
+  /\ conds_client_Conn_recv = ["err != nil"; "err != io.EOF"; "line != nil"]%string
+  /\ conds_client_Conn_runLoop = []
+  /\ conds_client_Conn_dispatch = []
+  /\ conds_client_hSet_dispatch = []
+  /\ conds_client_hSet_getHandlers = ["!ok"; "for hn != nil"]%string
+  /\ conds_client_Conn_h_001 = ["idx != -1"; "me.Nick != nick"; "conn.st != nil"; "ok"; "n != nil"; "ok"]%string
+  /\ conds_client_Conn_closeIf
+     = ["!conn.connected || (rw != nil && rw != conn.io)"; "conn.die != nil"; "for !drained"]%string
   /\ lits_client_Conn_initialise = [Consts.LInt 32%Z; Consts.LInt 32%Z]
   /\ cap_in = 32.
 Proof. repeat split; vm_compute; reflexivity. Qed.
